@@ -3,7 +3,9 @@
 package astx
 
 import (
+	"fmt"
 	"reflect"
+	"sort"
 
 	"github.com/goplus/xgo/ast"
 )
@@ -26,6 +28,28 @@ func Children(n ast.Node, withDocs bool) []ast.Node {
 	}
 	if v.Kind() != reflect.Struct {
 		return nil
+	}
+	// synthetic parts documented as such: the name of a file without package clause, and everything
+	// but the body of a shadow function declaration.
+	switch x := n.(type) {
+	case *ast.File:
+		if x.NoPkgDecl {
+			var all []ast.Node
+			collectStruct(v, withDocs, &all, 0)
+			for _, c := range all {
+				if c != ast.Node(x.Name) {
+					out = append(out, c)
+				}
+			}
+			return out
+		}
+	case *ast.FuncDecl:
+		if x.Shadow {
+			if x.Body != nil {
+				return []ast.Node{x.Body}
+			}
+			return nil
+		}
 	}
 	collectStruct(v, withDocs, &out, 0)
 	return out
@@ -57,7 +81,12 @@ func collectValue(v reflect.Value, withDocs bool, out *[]ast.Node, depth int) {
 			return
 		}
 		if v.Type().Implements(nodeType) {
-			*out = append(*out, v.Interface().(ast.Node))
+			// go/ast and tpl/ast nodes satisfy the interface structurally but are not XGo syntax nodes
+			// (Comment and CommentGroup are aliases of the go/ast types)
+			et := v.Type().Elem()
+			if et.PkgPath() == "github.com/goplus/xgo/ast" || et.PkgPath() == "go/ast" && (et.Name() == "Comment" || et.Name() == "CommentGroup") {
+				*out = append(*out, v.Interface().(ast.Node))
+			}
 			return
 		}
 		// transparent containers (StringLitEx, DomainTextLitEx)
@@ -67,6 +96,12 @@ func collectValue(v reflect.Value, withDocs bool, out *[]ast.Node, depth int) {
 	case reflect.Slice:
 		for i := 0; i < v.Len(); i++ {
 			collectValue(v.Index(i), withDocs, out, depth)
+		}
+	case reflect.Map:
+		keys := v.MapKeys()
+		sort.Slice(keys, func(i, j int) bool { return fmt.Sprint(keys[i]) < fmt.Sprint(keys[j]) })
+		for _, k := range keys {
+			collectValue(v.MapIndex(k), withDocs, out, depth)
 		}
 	case reflect.Struct:
 		if v.CanAddr() && v.Addr().Type().Implements(nodeType) {
